@@ -258,6 +258,74 @@ def run_declare_define(rec, S):
     rec.floor(R, "define_variable call sites", n, 9)
 
 
+def _value_leaves(e, env, conds, depth=0):
+    """[(conditions, value expression)] for every way the expression e can produce its value: if/else and
+    blocks are walked, `let` bindings of a block are substituted into later conditions, `!c` flips the branch,
+    `a && b` taken true gives both conjuncts. conditions = [(expr, truth)]."""
+    if e is None or depth > 12:
+        return []
+    k = e.get("e")
+    if k == "paren":
+        return _value_leaves(e.get("a"), env, conds, depth + 1)
+    if k == "block":
+        env = dict(env)
+        stmts = e.get("stmts") or []
+        for st in stmts[:-1]:
+            if st.get("s") == "let" and st.get("init") is not None and (st.get("pat") or {}).get("p") == "ident":
+                env[st["pat"]["name"]] = _subst(st["init"], env)
+        if not stmts:
+            return []
+        last = stmts[-1]
+        if last.get("s") == "let":
+            return []
+        if last.get("s") == "expr" and not last.get("semi", False):
+            return _value_leaves(last["e"], env, conds, depth + 1)
+        if last.get("s") == "expr" and (last.get("e") or {}).get("e") in ("if", "match", "block"):
+            return _value_leaves(last["e"], env, conds, depth + 1)
+        return []
+    if k == "if":
+        out = []
+        for c, t in _split_cond(_subst(e["cond"], env), True):
+            pass
+        cond = _subst(e["cond"], env)
+        out += _value_leaves(e.get("then"), env, conds + _split_cond(cond, True), depth + 1)
+        if e.get("else") is not None:
+            out += _value_leaves(e.get("else"), env, conds + _split_cond(cond, False), depth + 1)
+        return out
+    return [(conds, e)]
+
+
+def _subst(e, env, depth=0):
+    if not isinstance(e, dict) or depth > 8:
+        return e
+    if e.get("e") == "path" and e.get("p") in env:
+        return env[e["p"]]
+    if e.get("e") in ("unary", "paren") and isinstance(e.get("a"), dict):
+        n = dict(e)
+        n["a"] = _subst(e["a"], env, depth + 1)
+        return n
+    if e.get("e") == "binary":
+        n = dict(e)
+        n["a"] = _subst(e["a"], env, depth + 1)
+        n["b"] = _subst(e["b"], env, depth + 1)
+        return n
+    return e
+
+
+def _split_cond(c, truth):
+    if not isinstance(c, dict):
+        return []
+    if c.get("e") == "paren":
+        return _split_cond(c.get("a"), truth)
+    if c.get("e") == "unary" and c.get("op") == "!":
+        return _split_cond(c.get("a"), not truth)
+    if c.get("e") == "binary" and c.get("op") == "&&" and truth:
+        return _split_cond(c["a"], True) + _split_cond(c["b"], True)
+    if c.get("e") == "binary" and c.get("op") == "||" and not truth:
+        return _split_cond(c["a"], False) + _split_cond(c["b"], False)
+    return [(c, truth)]
+
+
 def run_known_class_receiver(rec, S):
     R = rec.rule("F2.f-recv", "property_get/property_set are given a class (which enables compile-time field offsets) only where the object on the stack is `self` itself: under `primary.is_self() && trailers.len() == 1`, the `is_self` flag of the first trailer, or the `@field` form")
     from ..facts import walk_expr
@@ -284,14 +352,17 @@ def run_known_class_receiver(rec, S):
                 inits = binds[a["p"]]
                 oks = []
                 for init in inits:
-                    if init.get("e") == "if":
-                        cond = synq.src(init["cond"])
-                        els = synq.src(init["else"]["stmts"][-1]["e"]) if init.get("else") and init["else"].get("e") == "block" and init["else"]["stmts"] else synq.src(init.get("else"))
-                        c1 = "is_self()" in cond and re.search(r"len\(\) == 1", cond) is not None
-                        c2 = cond.strip("()") == "is_self"
-                        oks.append((c1 or c2) and els == "None")
-                    else:
-                        oks.append(False)
+                    leaves = _value_leaves(init, {}, [])
+                    good = bool(leaves)
+                    for conds, val in leaves:
+                        if synq.src(val) == "None":
+                            continue
+                        texts = [synq.src(c) for c, t in conds if t]
+                        c1 = any("is_self()" in x for x in texts) and any(re.search(r"len\(\) == 1", x) for x in texts)
+                        c2 = any(x.strip("()") == "is_self" for x in texts)
+                        if not (c1 or c2):
+                            good = False
+                    oks.append(good and any(synq.src(v) != "None" for _, v in leaves))
                 ok = bool(oks) and all(oks)
                 how = "bound by " + "; ".join(synq.src(i)[:60] for i in inits)
             elif "class_attributes" in sa:
